@@ -1,5 +1,5 @@
 (* C08 proofs *)
-From Coq Require Import List String Bool NArith ZArith Lia Arith.
+From Coq Require Import List String Bool NArith ZArith Lia Arith Sorted.
 From Yae Require Import Base.Sexp Model.Lexer Model.Literal Model.Cst Model.Pratt Model.PrattSpec.
 Import ListNotations.
 Local Open Scope Z_scope.
@@ -1519,3 +1519,1014 @@ Proof.
   destruct rest; inv H. apply p_expr_run in Hx.
   apply (run_wfp _ (table_ok_gram_ok ops Hok)) in Hx. cbn [P_w] in Hx. apply Hx. exact Hlx.
 Qed.
+
+(* ---------- stage 6: completeness ---------- *)
+Ltac bsplit :=
+  repeat match goal with H : _ && _ = true |- _ => apply andb_true_iff in H; destruct H end.
+Ltac solve_in := cbn [In]; repeat rewrite in_app_iff; cbn [In]; tauto.
+
+Lemma must_eat_cons_ok : forall k t r, t_kind t = k -> must_eat k (t :: r) = POk (t, r).
+Proof. intros k t r H. unfold must_eat, kind_is. cbn [eat]. rewrite H, list_eqb_refl. reflexivity. Qed.
+Lemma try_eat_cons_ok : forall k t r, t_kind t = k -> try_eat k (t :: r) = Some (t, r).
+Proof. intros k t r H. unfold try_eat, kind_is. cbn [peek eat]. rewrite H, list_eqb_refl. reflexivity. Qed.
+Lemma try_eat_cons_none : forall k t r, list_eqb (t_kind t) k = false -> try_eat k (t :: r) = None.
+Proof. intros k t r H. unfold try_eat, kind_is. cbn [peek]. rewrite H. reflexivity. Qed.
+
+Lemma le_inf_zmin_inv : forall a b o, le_inf a (zmin b o) = true -> a <= b /\ le_inf a o = true.
+Proof.
+  intros a b [c|] H; cbn in *; apply Z.leb_le in H; split; try reflexivity; try apply Z.leb_le; lia.
+Qed.
+
+Section Complete.
+  Variable g : grammar.
+  Hypothesis Hg : gram_ok g.
+  Variable rng : pos -> pos -> pres pos.
+  Variable ordr : Z -> Z -> Prop.
+  Hypothesis Hrng : forall a b, ordr (p_idx a) (p_idx b) -> rng a b = POk (span a b).
+
+  Definition tR (a b : token) : Prop := ordr (Z.of_N (t_idx a)) (Z.of_N (t_idx b)).
+  Fixpoint tsorted (ts : list token) : Prop :=
+    match ts with [] => True | t :: r => Forall (tR t) r /\ tsorted r end.
+  Definition tk (ts : list token) : Prop := toks_ok ts /\ tsorted ts.
+
+  Lemma tsorted_app_inv : forall a b, tsorted (a ++ b) ->
+    tsorted a /\ tsorted b /\ (forall x y, In x a -> In y b -> tR x y).
+  Proof.
+    induction a as [|t a IH]; intros b H; cbn [app tsorted] in *.
+    - repeat split; auto. intros x y [].
+    - destruct H as [HF H]. apply IH in H. destruct H as [H1 [H2 H3]]. apply Forall_app in HF. destruct HF as [HF1 HF2].
+      repeat split; auto. intros x y [->|Hx] Hy; [|auto]. rewrite Forall_forall in HF2. auto.
+  Qed.
+
+  Lemma tk_app : forall a b, tk (a ++ b) -> tk a /\ tk b /\ (forall x y, In x a -> In y b -> tR x y).
+  Proof.
+    intros a b [H1 H2]. apply Forall_app in H1. destruct H1. apply tsorted_app_inv in H2. destruct H2 as [? [? ?]].
+    repeat split; auto.
+  Qed.
+
+  Lemma tk_cons : forall t r, tk (t :: r) -> olx t /\ tk r /\ (forall y, In y r -> tR t y).
+  Proof.
+    intros t r [H1 [H2 H3]]. inv H1. repeat split; auto. rewrite Forall_forall in H2. exact H2.
+  Qed.
+
+  Lemma rng_gen : forall a b ta tb,
+    p_idx a = Z.of_N (t_idx ta) -> p_idx b = Z.of_N (t_idx tb) -> tR ta tb -> rng a b = POk (span a b).
+  Proof. intros a b ta tb Ha Hb H. apply Hrng. rewrite Ha, Hb. exact H. Qed.
+
+  Lemma get_fixed_nud : forall t n k, nud_kind n = Some k -> t_kind t = k -> get (t_kind t) (g_prefix g) = Some (0, n).
+  Proof. intros t n k Hn Hk. rewrite Hk. apply (go_fixed_prefix g Hg); exact Hn. Qed.
+
+  Definition nudkinds : list (list N) := [K_SYM; K_TRUE; K_FALSE; K_NUM; K_STR; K_TIME; K_LBRACKET; K_LBRACE; K_LPAREN].
+  Lemma is_kind_nud : forall k t, is_kind k t -> In k nudkinds ->
+    exists bp n, get (t_kind t) (g_prefix g) = Some (bp, n) /\ is_eof t = false.
+  Proof.
+    intros k t [Hk He] Hin. exists 0. cbn in Hin.
+    destruct Hin as [<-|[<-|[<-|[<-|[<-|[<-|[<-|[<-|[<-|[]]]]]]]]]].
+    - exists NIdent. split; [eapply get_fixed_nud; [reflexivity | exact Hk] | exact He].
+    - exists NTrue. split; [eapply get_fixed_nud; [reflexivity | exact Hk] | exact He].
+    - exists NFalse. split; [eapply get_fixed_nud; [reflexivity | exact Hk] | exact He].
+    - exists NNum. split; [eapply get_fixed_nud; [reflexivity | exact Hk] | exact He].
+    - exists NStr. split; [eapply get_fixed_nud; [reflexivity | exact Hk] | exact He].
+    - exists NTime. split; [eapply get_fixed_nud; [reflexivity | exact Hk] | exact He].
+    - exists NListMap. split; [eapply get_fixed_nud; [reflexivity | exact Hk] | exact He].
+    - exists NObj. split; [eapply get_fixed_nud; [reflexivity | exact Hk] | exact He].
+    - exists NGroup. split; [eapply get_fixed_nud; [reflexivity | exact Hk] | exact He].
+  Qed.
+
+  (* the first token of an expression has a nud, and carries the expression's start index *)
+  Lemma yields_hd : forall e u, yields g e u ->
+    exists h r bp n, u = h :: r /\ get (t_kind h) (g_prefix g) = Some (bp, n) /\ is_eof h = false /\
+                     p_idx (expr_pos e) = Z.of_N (t_idx h).
+  Proof.
+    intros e u H.
+    induction H;
+      repeat match goal with IH : exists _ _ _ _, _ |- _ => destruct IH as [? [? [? [? [? [? [? ?]]]]]]] end; subst.
+    all: try (match goal with Hk : is_kind ?k ?t |- exists h r bp n, ?t :: _ = _ /\ _ =>
+                destruct (is_kind_nud k t Hk) as [bp' [n' [Hget' Heof']]]; [cbn; tauto|];
+                exists t; do 3 eexists; split; [reflexivity|]; split; [exact Hget'|]; split; [exact Heof' | reflexivity] end).
+    all: try (do 4 eexists; split; [cbn [app]; reflexivity|]; split; [eassumption|]; split; [assumption|cbn; assumption]).
+    - (* prefix *) unfold prefix_bp in H0. destruct (get (t_kind op) (g_prefix g)) as [[bp' n']|] eqn:E; [|discriminate].
+      do 4 eexists. split; [reflexivity|]. split; [exact E|]. split; [assumption | reflexivity].
+  Qed.
+
+  Definition closers : list (list N) := [K_RBRACKET; K_RBRACE; K_RPAREN; K_COLON; K_COMMA].
+
+  Lemma nud_not_closer : forall h bp n K, get (t_kind h) (g_prefix g) = Some (bp, n) -> In K closers ->
+    list_eqb (t_kind h) K = false.
+  Proof.
+    intros h bp n K H HK. pose proof (go_prefix g Hg _ _ _ H) as Hs. unfold nud_spec in Hs.
+    destruct n; cbn [nud_kind] in Hs; destruct Hs as [Hs _];
+      try (rewrite Hs; cbn in HK; repeat (destruct HK as [<-|HK]; [reflexivity|]); destruct HK).
+    rewrite list_eqb_sym. apply notfixed_neq; [exact Hs|].
+    cbn in HK. cbn. tauto.
+  Qed.
+
+  Lemma closer_no_infix : forall K, In K closers -> get K (g_infix g) = None.
+  Proof.
+    intros K HK. destruct (get K (g_infix g)) as [[bp l]|] eqn:E; [|reflexivity].
+    pose proof (go_infix g Hg _ _ _ E) as Hs. unfold led_spec in Hs.
+    destruct l; cbn [led_kind] in Hs; destruct Hs as [Hs _];
+      try (cbn in HK; repeat (destruct HK as [<-|HK]; [discriminate|]); destruct HK).
+    all: unfold notfixed in Hs; cbn in HK; repeat (destruct HK as [<-|HK]; [discriminate|]); destruct HK.
+  Qed.
+
+  Lemma lbpk_closer : forall t rest, In (t_kind t) closers -> lbpk g (t :: rest) = 0.
+  Proof. intros t rest H. unfold lbpk, infix_lbp. cbn [peek]. rewrite (closer_no_infix _ H). reflexivity. Qed.
+
+  Lemma lbpk_nil : lbpk g [] = 0.
+  Proof. unfold lbpk, infix_lbp. cbn [peek]. change (t_kind eof_tok) with K_EOF.
+    destruct (go_eof g Hg) as [_ Hi]. rewrite Hi. reflexivity. Qed.
+
+  Lemma rom_nonneg : forall e, le_inf 0 (rom g e) = true.
+  Proof.
+    induction e; cbn [rom]; try reflexivity.
+    - destruct prefix; [|reflexivity]. unfold prefix_bp.
+      destruct (get name (g_prefix g)) as [[bp n]|] eqn:E; [|reflexivity].
+      destruct n; try reflexivity. apply le_inf_zmin; [|exact IHe].
+      pose proof (go_prefix g Hg _ _ _ E) as Hs. unfold nud_spec in Hs. cbn in Hs. apply Hs.
+    - unfold infix_entry. destruct (get name (g_infix g)) as [[bp ld]|] eqn:E; [|reflexivity].
+      apply le_inf_zmin; [|exact IHe2].
+      pose proof (go_infix g Hg _ _ _ E) as Hs. unfold led_spec in Hs.
+      destruct ld; cbn [led_kind rbp_of] in *; try (destruct Hs as [_ ->]; cbv; discriminate);
+        destruct Hs as [_ [Hs1 Hs2]]; try lia. specialize (Hs2 eq_refl). lia.
+    - apply le_inf_zmin; [cbv; discriminate | exact IHe3].
+  Qed.
+
+  Lemma closed_closer : forall e t rest, In (t_kind t) closers -> closed_after g e (t :: rest).
+  Proof.
+    intros e t rest H. split.
+    - rewrite (lbpk_closer _ _ H). apply rom_nonneg.
+    - intros _. unfold kind_is. cbn [peek]. cbn in H.
+      repeat (destruct H as [<-|H]; [reflexivity|]). destruct H.
+  Qed.
+
+  Lemma closed_nil : forall e, closed_after g e [].
+  Proof. intro e. split; [rewrite lbpk_nil; apply rom_nonneg | intros _; reflexivity]. Qed.
+
+  Lemma R_expr_cons : forall rbp t ts1 bp n lft ts2 e rest,
+    get (t_kind t) (g_prefix g) = Some (bp, n) -> run g rng (JNud n bp t ts1 lft ts2) ->
+    run g rng (JLoop rbp lft ts2 e rest) -> run g rng (JExpr rbp (t :: ts1) e rest).
+  Proof. intros. eapply (R_expr g rng rbp (t :: ts1)); eauto. Qed.
+
+  Lemma Lp_step_cons : forall rbp lft t ts1 bp l left' ts2 e rest,
+    rbp < bp -> get (t_kind t) (g_infix g) = Some (bp, l) ->
+    run g rng (JLed l bp lft t ts1 left' ts2) -> infix_n_ok left' = true ->
+    run g rng (JLoop rbp left' ts2 e rest) -> run g rng (JLoop rbp lft (t :: ts1) e rest).
+  Proof.
+    intros rbp lft t ts1 bp l left' ts2 e rest Hlt Hget Hled Hok Hloop.
+    eapply (Lp_step g rng rbp lft (t :: ts1)); eauto.
+    unfold infix_lbp. cbn [peek]. rewrite Hget. apply Z.ltb_lt. exact Hlt.
+  Qed.
+
+  Lemma Lp_stop_le : forall rbp e ts, lbpk g ts <= rbp -> run g rng (JLoop rbp e ts e ts).
+  Proof. intros rbp e ts H. apply Lp_stop. apply Z.ltb_ge. exact H. Qed.
+
+  Definition C (e : expr) : Prop :=
+    forall rbp used rest e' rest',
+      yields g e used -> wfp g rbp e = true -> tk used -> closed_after g e rest ->
+      run g rng (JLoop rbp e rest e' rest') -> run g rng (JExpr rbp (used ++ rest) e' rest').
+
+  Lemma C_stop : forall e r used rest,
+    C e -> yields g e used -> wfp g r e = true -> tk used -> closed_after g e rest -> lbpk g rest <= r ->
+    run g rng (JExpr r (used ++ rest) e rest).
+  Proof. intros e r used rest HC Hy Hw Htk Hcl Hle. apply HC; auto. apply Lp_stop_le. exact Hle. Qed.
+
+  Lemma idx_tpos : forall t, is_eof t = false -> p_idx (tpos t) = Z.of_N (t_idx t).
+  Proof. intros t H. rewrite tpos_noeof by exact H. reflexivity. Qed.
+
+  Lemma kind_is_hd_false : forall e u rest K, yields g e u -> In K closers -> kind_is (peek (u ++ rest)) K = false.
+  Proof.
+    intros e u rest K Hy HK. destruct (yields_hd _ _ Hy) as [h [r [bp [n [-> [Hget _]]]]]].
+    cbn [app peek]. unfold kind_is. eapply nud_not_closer; eauto.
+  Qed.
+
+  Lemma try_eat_hd_none : forall e u rest K, yields g e u -> In K closers -> try_eat K (u ++ rest) = None.
+  Proof.
+    intros e u rest K Hy HK. unfold try_eat. rewrite (kind_is_hd_false e u rest K Hy HK). reflexivity.
+  Qed.
+
+  (* a sub-expression at level 0 followed by a closing token *)
+  Lemma C_stop_closer : forall e used t rest,
+    C e -> yields g e used -> wfp g 0 e = true -> tk used -> In (t_kind t) closers ->
+    run g rng (JExpr 0 (used ++ t :: rest) e (t :: rest)).
+  Proof.
+    intros e used t rest HC Hy Hw Htk Hin. apply C_stop; auto.
+    - apply closed_closer; exact Hin.
+    - rewrite (lbpk_closer _ _ Hin). lia.
+  Qed.
+
+  Lemma elems_complete : forall tss tes, sep_by (is_kind K_COMMA) tss tes ->
+    forall es tc rb rest,
+      Forall C es -> Forall2 (yields g) es tss -> opt_comma tc -> (es = [] -> tc = []) ->
+      forallb (wfp g 0) es = true -> tk tes -> t_kind rb = K_RBRACKET ->
+      run g rng (JElems K_RBRACKET (tes ++ tc ++ rb :: rest) es (rb :: rest)).
+  Proof.
+    induction 1 as [|u|u c tss0 all Hc Hne Hsep IH]; intros es tc rb rest HC HF Ho Hnil Hw Htk Hrb.
+    - inv HF. rewrite (Hnil eq_refl). cbn [app]. apply E_close. unfold kind_is. cbn [peek]. rewrite Hrb. reflexivity.
+    - inv HF. match goal with H : Forall2 _ _ [] |- _ => inv H end. inv HC. cbn [forallb] in Hw. bsplit.
+      destruct Ho as [->|[c [[Hck Hce] ->]]]; cbn [app].
+      + eapply E_last.
+        * eapply kind_is_hd_false; eauto. cbn; tauto.
+        * apply C_stop_closer; auto. rewrite Hrb. cbn; tauto.
+        * apply try_eat_cons_none. rewrite Hrb. reflexivity.
+      + eapply E_more.
+        * eapply kind_is_hd_false; eauto. cbn; tauto.
+        * apply C_stop_closer; auto. rewrite Hck. cbn; tauto.
+        * apply try_eat_cons_ok. exact Hck.
+        * apply E_close. unfold kind_is. cbn [peek]. rewrite Hrb. reflexivity.
+    - inv HF. inv HC. cbn [forallb] in Hw. bsplit. destruct Hc as [Hck Hce].
+      apply tk_app in Htk. destruct Htk as [Htk1 [Htk2 _]]. apply tk_cons in Htk2. destruct Htk2 as [_ [Htk2 _]].
+      rewrite <- app_assoc. cbn [app]. eapply E_more.
+      + eapply kind_is_hd_false; eauto. cbn; tauto.
+      + apply C_stop_closer; auto. rewrite Hck. cbn; tauto.
+      + apply try_eat_cons_ok. exact Hck.
+      + apply IH; auto. intros ->. match goal with H : Forall2 _ [] _ |- _ => inv H end. congruence.
+  Qed.
+
+  Lemma pairs_complete : forall tss tes, sep_by (is_kind K_COMMA) tss tes ->
+    forall kvs tc rb rest,
+      Forall (fun kv => C (fst kv) /\ C (snd kv)) kvs -> Forall2 (pair_rel g) kvs tss -> opt_comma tc -> (kvs = [] -> tc = []) ->
+      forallb (fun kv => wfp g 0 (fst kv) && wfp g 0 (snd kv)) kvs = true -> tk tes -> t_kind rb = K_RBRACKET ->
+      run g rng (JPairs (tes ++ tc ++ rb :: rest) kvs (rb :: rest)).
+  Proof.
+    induction 1 as [|u|u c tss0 all Hc Hne Hsep IH]; intros kvs tc rb rest HC HF Ho Hnil Hw Htk Hrb.
+    - inv HF. rewrite (Hnil eq_refl). cbn [app]. apply P_close. unfold kind_is. cbn [peek]. rewrite Hrb. reflexivity.
+    - inv HF. match goal with H : Forall2 _ _ [] |- _ => inv H end. inv HC. cbn [forallb] in Hw. bsplit.
+      match goal with H : pair_rel g _ _ |- _ => destruct H as [uk [cc [uv [[Hcck Hcce] [Hyk [Hyv ->]]]]]] end.
+      match goal with H : C _ /\ C _ |- _ => destruct H as [HCk HCv] end.
+      apply tk_app in Htk. destruct Htk as [Htk1 [Htk2 _]]. apply tk_cons in Htk2. destruct Htk2 as [_ [Htk2 _]].
+      destruct x as [k v]. cbn [fst snd] in *.
+      destruct Ho as [->|[c [[Hck Hce] ->]]]; cbn [app]; rewrite <- app_assoc; cbn [app].
+      + eapply P_last.
+        * eapply kind_is_hd_false; eauto. cbn; tauto.
+        * apply (C_stop_closer k uk cc); auto. rewrite Hcck. cbn; tauto.
+        * apply must_eat_cons_ok. exact Hcck.
+        * apply C_stop_closer; auto. rewrite Hrb. cbn; tauto.
+        * apply try_eat_cons_none. rewrite Hrb. reflexivity.
+      + eapply P_more.
+        * eapply kind_is_hd_false; eauto. cbn; tauto.
+        * apply (C_stop_closer k uk cc); auto. rewrite Hcck. cbn; tauto.
+        * apply must_eat_cons_ok. exact Hcck.
+        * apply C_stop_closer; auto. rewrite Hck. cbn; tauto.
+        * apply try_eat_cons_ok. exact Hck.
+        * apply P_close. unfold kind_is. cbn [peek]. rewrite Hrb. reflexivity.
+    - inv HF. inv HC. cbn [forallb] in Hw. bsplit. destruct Hc as [Hck Hce].
+      match goal with H : pair_rel g _ _ |- _ => destruct H as [uk [cc [uv [[Hcck Hcce] [Hyk [Hyv ->]]]]]] end.
+      match goal with H : C _ /\ C _ |- _ => destruct H as [HCk HCv] end.
+      apply tk_app in Htk. destruct Htk as [Htk1 [Htk2 _]]. apply tk_cons in Htk2. destruct Htk2 as [_ [Htk2 _]].
+      apply tk_app in Htk1. destruct Htk1 as [Htk1a [Htk1b _]]. apply tk_cons in Htk1b. destruct Htk1b as [_ [Htk1b _]].
+      destruct x as [k v]. cbn [fst snd] in *.
+      repeat (rewrite <- app_assoc; cbn [app]). eapply P_more.
+      + eapply kind_is_hd_false; eauto. cbn; tauto.
+      + apply (C_stop_closer k uk cc); auto. rewrite Hcck. cbn; tauto.
+      + apply must_eat_cons_ok. exact Hcck.
+      + apply (C_stop_closer v uv c); auto. rewrite Hck. cbn; tauto.
+      + apply try_eat_cons_ok. exact Hck.
+      + apply IH; auto. intros ->. match goal with H : Forall2 _ [] _ |- _ => inv H end. congruence.
+  Qed.
+
+  Lemma fields_complete : forall tss tes, sep_by (is_kind K_COMMA) tss tes ->
+    forall fs tc rb rest,
+      Forall (fun f => C (snd f)) fs -> Forall2 (field_rel g) fs tss -> opt_comma tc -> (fs = [] -> tc = []) ->
+      forallb (fun f => wfp g 0 (snd f)) fs = true -> tk tes -> t_kind rb = K_RBRACE ->
+      run g rng (JFields (tes ++ tc ++ rb :: rest) fs (rb :: rest)).
+  Proof.
+    induction 1 as [|u|u c tss0 all Hc Hne Hsep IH]; intros fs tc rb rest HC HF Ho Hnil Hw Htk Hrb.
+    - inv HF. rewrite (Hnil eq_refl). cbn [app]. apply F_close. unfold kind_is. cbn [peek]. rewrite Hrb. reflexivity.
+    - inv HF. match goal with H : Forall2 _ _ [] |- _ => inv H end. inv HC. cbn [forallb] in Hw. bsplit.
+      match goal with H : field_rel g _ _ |- _ => destruct H as [nm [cc [uv [[Hnk Hne] [[Hcck Hcce] [Hfst [Hyv ->]]]]]]] end.
+      apply tk_cons in Htk. destruct Htk as [_ [Htk _]]. apply tk_cons in Htk. destruct Htk as [_ [Htk _]].
+      destruct x as [fname v]. cbn [fst snd] in *. subst fname.
+      destruct Ho as [->|[c [[Hck Hce] ->]]]; cbn [app].
+      + eapply F_last.
+        * unfold kind_is. cbn [peek]. rewrite Hnk. reflexivity.
+        * apply must_eat_cons_ok. exact Hnk.
+        * apply must_eat_cons_ok. exact Hcck.
+        * apply C_stop_closer; auto. rewrite Hrb. cbn; tauto.
+        * apply try_eat_cons_none. rewrite Hrb. reflexivity.
+      + cbn [app]; repeat (rewrite <- app_assoc; cbn [app]). eapply F_more.
+        * unfold kind_is. cbn [peek]. rewrite Hnk. reflexivity.
+        * apply must_eat_cons_ok. exact Hnk.
+        * apply must_eat_cons_ok. exact Hcck.
+        * apply C_stop_closer; auto. rewrite Hck. cbn; tauto.
+        * apply try_eat_cons_ok. exact Hck.
+        * apply F_close. unfold kind_is. cbn [peek]. rewrite Hrb. reflexivity.
+    - inv HF. inv HC. cbn [forallb] in Hw. bsplit. destruct Hc as [Hck Hce].
+      match goal with H : field_rel g _ _ |- _ => destruct H as [nm [cc [uv [[Hnk Hne'] [[Hcck Hcce] [Hfst [Hyv ->]]]]]]] end.
+      apply tk_app in Htk. destruct Htk as [Htk1 [Htk2 _]]. apply tk_cons in Htk2. destruct Htk2 as [_ [Htk2 _]].
+      apply tk_cons in Htk1. destruct Htk1 as [_ [Htk1 _]]. apply tk_cons in Htk1. destruct Htk1 as [_ [Htk1 _]].
+      destruct x as [fname v]. cbn [fst snd] in *. subst fname.
+      cbn [app]. repeat (rewrite <- app_assoc; cbn [app]). eapply F_more.
+      + unfold kind_is. cbn [peek]. rewrite Hnk. reflexivity.
+      + apply must_eat_cons_ok. exact Hnk.
+      + apply must_eat_cons_ok. exact Hcck.
+      + apply (C_stop_closer v uv c); auto. rewrite Hck. cbn; tauto.
+      + apply try_eat_cons_ok. exact Hck.
+      + apply IH; auto. intros ->. match goal with H : Forall2 _ [] _ |- _ => inv H end. congruence.
+  Qed.
+
+  Lemma args_complete : forall tss tes, sep_by (is_kind K_COMMA) tss tes ->
+    forall es rp rest,
+      es <> [] -> Forall C es -> Forall2 (yields g) es tss ->
+      forallb (wfp g 0) es = true -> tk tes -> t_kind rp = K_RPAREN ->
+      run g rng (JArgs (tes ++ rp :: rest) es (rp :: rest)).
+  Proof.
+    induction 1 as [|u|u c tss0 all Hc Hne Hsep IH]; intros es rp rest Hnn HC HF Hw Htk Hrp.
+    - inv HF. congruence.
+    - inv HF. match goal with H : Forall2 _ _ [] |- _ => inv H end. inv HC. cbn [forallb] in Hw. bsplit.
+      eapply A_last.
+      + apply C_stop_closer; auto. rewrite Hrp. cbn; tauto.
+      + apply try_eat_cons_none. rewrite Hrp. reflexivity.
+    - inv HF. inv HC. cbn [forallb] in Hw. bsplit. destruct Hc as [Hck Hce].
+      apply tk_app in Htk. destruct Htk as [Htk1 [Htk2 _]]. apply tk_cons in Htk2. destruct Htk2 as [_ [Htk2 _]].
+      rewrite <- app_assoc. cbn [app]. eapply A_more.
+      + apply C_stop_closer; auto. rewrite Hck. cbn; tauto.
+      + apply try_eat_cons_ok. exact Hck.
+      + apply IH; auto. intros ->. match goal with H : Forall2 _ [] _ |- _ => inv H end. congruence.
+  Qed.
+
+  Lemma call_complete : forall callee lp args tss targs rp rest p,
+    Forall C args -> Forall2 (yields g) args tss -> sep_by (is_kind K_COMMA) tss targs ->
+    forallb (wfp g 0) args = true -> tk targs -> is_kind K_RPAREN rp ->
+    rng (expr_pos callee) (tpos rp) = POk p ->
+    run g rng (JCall callee lp (targs ++ rp :: rest) (ECall p (Z.of_N (t_col lp)) callee args) rest).
+  Proof.
+    intros callee lp args tss targs rp rest p HC HF Hsep Hw Htk [Hrp Hre] Hr.
+    destruct args as [|a args].
+    - inv HF. apply sep_by_nil_inv in Hsep. subst targs. cbn [app].
+      eapply C_empty; [apply try_eat_cons_ok; exact Hrp | exact Hr].
+    - eapply C_args.
+      + inv HF. inv Hsep.
+        * eapply try_eat_hd_none; eauto. cbn; tauto.
+        * rewrite <- app_assoc. eapply try_eat_hd_none; eauto. cbn; tauto.
+      + eapply args_complete; eauto. discriminate.
+      + apply must_eat_cons_ok. exact Hrp.
+      + exact Hr.
+  Qed.
+
+  Lemma rng_tt : forall a b, is_eof a = false -> is_eof b = false -> tR a b ->
+    rng (tpos a) (tpos b) = POk (span (tok_pos a) (tok_pos b)).
+  Proof.
+    intros a b Ha Hb H. rewrite !tpos_noeof by assumption. eapply rng_gen; [| |exact H]; reflexivity.
+  Qed.
+
+  Lemma list_nud : forall lb rb es tss tes tc rest bp,
+    is_kind K_LBRACKET lb -> is_kind K_RBRACKET rb -> Forall C es -> Forall2 (yields g) es tss ->
+    sep_by (is_kind K_COMMA) tss tes -> opt_comma tc -> (es = [] -> tc = []) ->
+    forallb (wfp g 0) es = true -> tk tes -> tR lb rb ->
+    run g rng (JNud NListMap bp lb (tes ++ tc ++ rb :: rest) (EList (span (tok_pos lb) (tok_pos rb)) es) rest).
+  Proof.
+    intros lb rb es tss tes tc rest bp [Hlb Hlbe] [Hrb Hrbe] HC HF Hsep Ho Hnil Hw Htk HR.
+    pose proof (rng_tt lb rb Hlbe Hrbe HR) as Hr.
+    destruct es as [|e1 es'].
+    - inv HF. apply sep_by_nil_inv in Hsep. subst tes. rewrite (Hnil eq_refl). cbn [app].
+      eapply N_list_empty; [apply try_eat_cons_none; rewrite Hrb; reflexivity | | apply must_eat_cons_ok; exact Hrb | exact Hr].
+      unfold kind_is. cbn [peek]. rewrite Hrb. reflexivity.
+    - inv HF. inv HC. cbn [forallb] in Hw. bsplit. inv Hsep.
+      + match goal with H : Forall2 _ _ [] |- _ => inv H end.
+        destruct Ho as [->|[c [[Hck Hce] ->]]]; cbn [app].
+        * eapply N_list1; [eapply try_eat_hd_none; eauto; cbn; tauto | eapply kind_is_hd_false; eauto; cbn; tauto
+                           | apply C_stop_closer; auto; rewrite Hrb; cbn; tauto
+                           | apply try_eat_cons_none; rewrite Hrb; reflexivity
+                           | apply try_eat_cons_none; rewrite Hrb; reflexivity
+                           | apply must_eat_cons_ok; exact Hrb | exact Hr].
+        * eapply N_listn; [eapply try_eat_hd_none; eauto; cbn; tauto | eapply kind_is_hd_false; eauto; cbn; tauto
+                           | apply C_stop_closer; auto; rewrite Hck; cbn; tauto
+                           | apply try_eat_cons_none; rewrite Hck; reflexivity
+                           | apply try_eat_cons_ok; exact Hck
+                           | apply E_close; unfold kind_is; cbn [peek]; rewrite Hrb; reflexivity
+                           | apply must_eat_cons_ok; exact Hrb | exact Hr].
+      + match goal with H : is_kind K_COMMA _ |- _ => destruct H as [Hck Hce] end.
+        apply tk_app in Htk. destruct Htk as [Htk1 [Htk2 _]]. apply tk_cons in Htk2. destruct Htk2 as [_ [Htk2 _]].
+        rewrite <- app_assoc. cbn [app].
+        eapply N_listn; [rewrite app_comm_cons; eapply try_eat_hd_none; eauto; cbn; tauto
+                         | rewrite app_comm_cons; eapply kind_is_hd_false; eauto; cbn; tauto
+                         | apply C_stop_closer; auto; rewrite Hck; cbn; tauto
+                         | apply try_eat_cons_none; rewrite Hck; reflexivity
+                         | apply try_eat_cons_ok; exact Hck
+                         | eapply elems_complete; eauto
+                         | apply must_eat_cons_ok; exact Hrb | exact Hr].
+        intros ->. match goal with H : Forall2 _ [] _ |- _ => inv H end. congruence.
+  Qed.
+
+  Lemma map_nud : forall lb rb kvs tss tes tc rest bp,
+    is_kind K_LBRACKET lb -> is_kind K_RBRACKET rb -> kvs <> [] ->
+    Forall (fun kv => C (fst kv) /\ C (snd kv)) kvs -> Forall2 (pair_rel g) kvs tss ->
+    sep_by (is_kind K_COMMA) tss tes -> opt_comma tc ->
+    forallb (fun kv => wfp g 0 (fst kv) && wfp g 0 (snd kv)) kvs = true -> tk tes -> tR lb rb ->
+    run g rng (JNud NListMap bp lb (tes ++ tc ++ rb :: rest) (EMap (span (tok_pos lb) (tok_pos rb)) kvs) rest).
+  Proof.
+    intros lb rb kvs tss tes tc rest bp [Hlb Hlbe] [Hrb Hrbe] Hnn HC HF Hsep Ho Hw Htk HR.
+    pose proof (rng_tt lb rb Hlbe Hrbe HR) as Hr.
+    destruct kvs as [|[k v] kvs']; [congruence|].
+    inv HF. inv HC. cbn [forallb fst snd] in *. bsplit.
+    match goal with H : pair_rel g _ _ |- _ => destruct H as [uk [cc [uv [[Hcck Hcce] [Hyk [Hyv ->]]]]]] end.
+    match goal with H : C _ /\ C _ |- _ => destruct H as [HCk HCv] end.
+    cbn [fst snd] in *.
+    inv Hsep.
+    - match goal with H : Forall2 _ _ [] |- _ => inv H end.
+      apply tk_app in Htk. destruct Htk as [Htk1 [Htk2 _]]. apply tk_cons in Htk2. destruct Htk2 as [_ [Htk2 _]].
+      destruct Ho as [->|[c [[Hck Hce] ->]]]; cbn [app]; rewrite <- app_assoc; cbn [app].
+      + eapply N_map1; [eapply try_eat_hd_none; eauto; cbn; tauto | eapply kind_is_hd_false; eauto; cbn; tauto
+                        | apply (C_stop_closer k uk cc); auto; rewrite Hcck; cbn; tauto
+                        | apply try_eat_cons_ok; exact Hcck
+                        | apply C_stop_closer; auto; rewrite Hrb; cbn; tauto
+                        | apply try_eat_cons_none; rewrite Hrb; reflexivity
+                        | apply must_eat_cons_ok; exact Hrb | exact Hr].
+      + eapply N_mapn; [eapply try_eat_hd_none; eauto; cbn; tauto | eapply kind_is_hd_false; eauto; cbn; tauto
+                        | apply (C_stop_closer k uk cc); auto; rewrite Hcck; cbn; tauto
+                        | apply try_eat_cons_ok; exact Hcck
+                        | apply (C_stop_closer v uv c); auto; rewrite Hck; cbn; tauto
+                        | apply try_eat_cons_ok; exact Hck
+                        | apply P_close; unfold kind_is; cbn [peek]; rewrite Hrb; reflexivity
+                        | apply must_eat_cons_ok; exact Hrb | exact Hr].
+    - match goal with H : is_kind K_COMMA _ |- _ => destruct H as [Hck Hce] end.
+      apply tk_app in Htk. destruct Htk as [Htk1 [Htk2 _]]. apply tk_cons in Htk2. destruct Htk2 as [_ [Htk2 _]].
+      apply tk_app in Htk1. destruct Htk1 as [Htk1a [Htk1b _]]. apply tk_cons in Htk1b. destruct Htk1b as [_ [Htk1b _]].
+      repeat (rewrite <- app_assoc; cbn [app]).
+      eapply N_mapn; [eapply try_eat_hd_none; eauto; cbn; tauto | eapply kind_is_hd_false; eauto; cbn; tauto
+                      | apply (C_stop_closer k uk cc); auto; rewrite Hcck; cbn; tauto
+                      | apply try_eat_cons_ok; exact Hcck
+                      | apply (C_stop_closer v uv c); auto; rewrite Hck; cbn; tauto
+                      | apply try_eat_cons_ok; exact Hck
+                      | eapply pairs_complete; eauto
+                      | apply must_eat_cons_ok; exact Hrb | exact Hr].
+      intros ->. match goal with H : Forall2 _ [] _ |- _ => inv H end. congruence.
+  Qed.
+
+  Definition PC (e : expr) : Prop := C e /\ match e with EMember _ _ o _ _ => C o | _ => True end.
+
+  Lemma Forall_PC_C : forall es, Forall PC es -> Forall C es.
+  Proof. intros es H. eapply Forall_impl; [|exact H]. intros a [Ha _]. exact Ha. Qed.
+
+  Lemma wfp_call_cases : forall rbp p col f args, wfp g rbp (ECall p col f args) = true ->
+    forallb (wfp g 0) args = true /\
+    ((exists pm cm o nm np, f = EMember pm cm o nm np /\ wfp g rbp f = true) \/
+     (rbp < BP_CALL /\ wfp g rbp f = true /\ le_inf BP_CALL (rom g f) = true /\ ends_with_member f = false)).
+  Proof.
+    intros rbp p col f args H. cbn [wfp] in H.
+    destruct f; bsplit; (split; [assumption|]);
+      try (left; do 5 eexists; split; [reflexivity | assumption]);
+      right; (split; [apply Z.ltb_lt; assumption|]); (split; [assumption|]); (split; [assumption|]);
+      match goal with H : negb _ = true |- _ => apply negb_true_iff in H; exact H end.
+  Qed.
+
+  Lemma lbpk_infix : forall t rest bp l, get (t_kind t) (g_infix g) = Some (bp, l) -> lbpk g (t :: rest) = bp.
+  Proof. intros t rest bp l H. unfold lbpk, infix_lbp. cbn [peek]. rewrite H. reflexivity. Qed.
+
+  Lemma get_fixed_led : forall t l k bp, led_kind l = Some (k, bp) -> t_kind t = k -> get (t_kind t) (g_infix g) = Some (bp, l).
+  Proof. intros t l k bp Hl Hk. rewrite Hk. apply (go_fixed_infix g Hg); exact Hl. Qed.
+
+  Ltac start_C :=
+    split; [|exact I]; intros rbp used rest e' rest' Hy Hw Htk Hcl Hloop; inversion Hy; subst.
+
+  Lemma PC_str : forall p t, PC (EStr p t).
+  Proof.
+    intros p t. start_C. match goal with H : is_kind _ _ |- _ => destruct H as [Hk He] end.
+    cbn [app]. rewrite <- (tpos_noeof _ He) in *.
+    eapply (R_expr_cons rbp _ rest 0 NStr); [eapply get_fixed_nud; [reflexivity | exact Hk] | apply N_str; assumption | exact Hloop].
+  Qed.
+  Lemma PC_num : forall p t, PC (ENum p t).
+  Proof.
+    intros p t. start_C. match goal with H : is_kind _ _ |- _ => destruct H as [Hk He] end.
+    cbn [app]. rewrite <- (tpos_noeof _ He) in *.
+    eapply (R_expr_cons rbp _ rest 0 NNum); [eapply get_fixed_nud; [reflexivity | exact Hk] | apply N_num; assumption | exact Hloop].
+  Qed.
+  Lemma PC_time : forall p t, PC (ETime p t).
+  Proof.
+    intros p t. start_C. match goal with H : is_kind _ _ |- _ => destruct H as [Hk He] end.
+    cbn [app]. rewrite <- (tpos_noeof _ He) in *.
+    eapply (R_expr_cons rbp _ rest 0 NTime); [eapply get_fixed_nud; [reflexivity | exact Hk] | apply N_time | exact Hloop].
+  Qed.
+  Lemma PC_ident : forall p t, PC (EIdent p t).
+  Proof.
+    intros p t. start_C. match goal with H : is_kind _ _ |- _ => destruct H as [Hk He] end.
+    cbn [app]. rewrite <- (tpos_noeof _ He) in *.
+    eapply (R_expr_cons rbp _ rest 0 NIdent); [eapply get_fixed_nud; [reflexivity | exact Hk] | apply N_ident | exact Hloop].
+  Qed.
+  Lemma PC_bool : forall p b, PC (EBool p b).
+  Proof.
+    intros p b. start_C; match goal with H : is_kind _ _ |- _ => destruct H as [Hk He] end;
+      cbn [app]; rewrite <- (tpos_noeof _ He) in *.
+    - eapply (R_expr_cons rbp _ rest 0 NTrue); [eapply get_fixed_nud; [reflexivity | exact Hk] | apply N_true | exact Hloop].
+    - eapply (R_expr_cons rbp _ rest 0 NFalse); [eapply get_fixed_nud; [reflexivity | exact Hk] | apply N_false | exact Hloop].
+  Qed.
+
+  Lemma PC_list : forall p es, Forall PC es -> PC (EList p es).
+  Proof.
+    intros p es HPC. apply Forall_PC_C in HPC. start_C.
+    apply tk_cons in Htk. destruct Htk as [_ [Htk HR]]. apply tk_app in Htk. destruct Htk as [Htk _].
+    cbn [wfp] in Hw. cbn [app]. repeat (rewrite <- app_assoc; cbn [app]).
+    match goal with H : is_kind K_LBRACKET ?lb |- _ =>
+      eapply (R_expr_cons rbp lb _ 0 NListMap); [eapply get_fixed_nud; [reflexivity | apply H] | | exact Hloop] end.
+    eapply list_nud; eauto. apply HR. solve_in.
+  Qed.
+
+  Lemma PC_map : forall p kvs, Forall (fun kv => PC (fst kv) /\ PC (snd kv)) kvs -> PC (EMap p kvs).
+  Proof.
+    intros p kvs HPC.
+    assert (HC : Forall (fun kv => C (fst kv) /\ C (snd kv)) kvs).
+    { eapply Forall_impl; [|exact HPC]. intros a [[Ha _] [Hb _]]. split; assumption. }
+    clear HPC. start_C.
+    - (* empty map *)
+      repeat match goal with H : is_kind _ _ |- _ => destruct H as [? ?] end.
+      apply tk_cons in Htk. destruct Htk as [_ [Htk HR]].
+      cbn [app].
+      eapply (R_expr_cons rbp lb _ 0 NListMap); [eapply get_fixed_nud; [reflexivity | assumption] | | exact Hloop].
+      eapply N_map_empty; [apply try_eat_cons_ok; eassumption | apply must_eat_cons_ok; eassumption |].
+      apply rng_tt; auto. apply HR. solve_in.
+    - apply tk_cons in Htk. destruct Htk as [_ [Htk HR]]. apply tk_app in Htk. destruct Htk as [Htk _].
+      cbn [wfp] in Hw. cbn [app]. repeat (rewrite <- app_assoc; cbn [app]).
+      match goal with H : is_kind K_LBRACKET ?lb |- _ =>
+        eapply (R_expr_cons rbp lb _ 0 NListMap); [eapply get_fixed_nud; [reflexivity | apply H] | | exact Hloop] end.
+      eapply map_nud; eauto. apply HR. solve_in.
+  Qed.
+
+  Lemma PC_obj : forall p fs, Forall (fun f => PC (snd f)) fs -> PC (EObj p fs).
+  Proof.
+    intros p fs HPC.
+    assert (HC : Forall (fun f => C (snd f)) fs).
+    { eapply Forall_impl; [|exact HPC]. intros a [Ha _]. exact Ha. }
+    clear HPC. start_C.
+    apply tk_cons in Htk. destruct Htk as [_ [Htk HR]]. apply tk_app in Htk. destruct Htk as [Htk _].
+    cbn [wfp] in Hw. cbn [app]. repeat (rewrite <- app_assoc; cbn [app]).
+    match goal with H : is_kind K_LBRACE ?lb |- _ =>
+      eapply (R_expr_cons rbp lb _ 0 NObj); [eapply get_fixed_nud; [reflexivity | apply H] | | exact Hloop] end.
+    repeat match goal with H : is_kind _ _ |- _ => destruct H as [? ?] end.
+    eapply N_obj; [eapply fields_complete; eauto | apply must_eat_cons_ok; assumption |].
+    apply rng_tt; auto. apply HR. solve_in.
+  Qed.
+
+  Lemma PC_group : forall p x, PC x -> PC (EGroup p x).
+  Proof.
+    intros p x [HCx _]. start_C.
+    repeat match goal with H : is_kind _ _ |- _ => destruct H as [? ?] end.
+    apply tk_cons in Htk. destruct Htk as [_ [Htk HR]]. apply tk_app in Htk. destruct Htk as [Htk _].
+    cbn [wfp] in Hw. cbn [app]. repeat (rewrite <- app_assoc; cbn [app]).
+    eapply (R_expr_cons rbp lp _ 0 NGroup); [eapply get_fixed_nud; [reflexivity | assumption] | | exact Hloop].
+    eapply N_group; [apply C_stop_closer; eauto | apply must_eat_cons_ok; assumption |].
+    - match goal with H : t_kind rp = _ |- _ => rewrite H end. cbn; tauto.
+    - apply rng_tt; auto. apply HR. solve_in.
+  Qed.
+
+  Ltac yhd x h r Hidx :=
+    match goal with H : yields g x _ |- _ =>
+      let E := fresh "E" in destruct (yields_hd _ _ H) as [h [r [? [? [E [_ [_ Hidx]]]]]]]; subst end.
+
+  Lemma notfixed_not_lparen : forall t, notfixed (t_kind t) -> kind_is t K_LPAREN = false.
+  Proof. intros t H. unfold kind_is. rewrite list_eqb_sym. apply notfixed_neq; [exact H | cbn; tauto]. Qed.
+
+  Lemma PC_unary : forall p n np x pre, PC x -> PC (EUnary p n np x pre).
+  Proof.
+    intros p n np x pre [HCx _]. start_C.
+    - (* prefix *)
+      match goal with H : prefix_bp g (t_kind op) = Some _ |- _ => rename H into Hpb end.
+      assert (Hget : get (t_kind op) (g_prefix g) = Some (bp, NPrefix)).
+      { unfold prefix_bp in Hpb. destruct (get (t_kind op) (g_prefix g)) as [[b' n']|]; [|discriminate].
+        destruct n'; inv Hpb. reflexivity. }
+      pose proof (go_prefix g Hg _ _ _ Hget) as Hs. unfold nud_spec in Hs. cbn [nud_kind] in Hs. destruct Hs as [Hnf Hbp].
+      apply tk_cons in Htk. destruct Htk as [Hlx [Htk HR]].
+      pose proof (olx_notfixed op Hlx Hnf) as Hlex.
+      cbn [wfp] in Hw. rewrite Hlex, Hpb in Hw.
+      destruct Hcl as [Hrom Hewm]. cbn [rom ends_with_member] in Hrom, Hewm. rewrite Hlex, Hpb in Hrom.
+      apply le_inf_zmin_inv in Hrom. destruct Hrom as [Hstop Hrom].
+      match goal with H : is_eof op = false |- _ => rename H into Heof end.
+      rewrite <- (tpos_noeof op Heof) in *.
+      yhd x h r Hidx.
+      cbn [app].
+      eapply (R_expr_cons rbp op _ bp NPrefix); [exact Hget | | exact Hloop].
+      eapply N_prefix.
+      + apply (C_stop x bp (h :: r) rest); auto. split; assumption.
+      + eapply rng_gen; [apply idx_tpos; exact Heof | exact Hidx | apply HR; solve_in].
+    - (* postfix *)
+      match goal with H : infix_entry g (t_kind op) = Some _ |- _ => rename H into Hie end.
+      unfold infix_entry in Hie.
+      pose proof (go_infix g Hg _ _ _ Hie) as Hs. unfold led_spec in Hs. cbn [led_kind] in Hs. destruct Hs as [Hnf [Hbp _]].
+      apply tk_app in Htk. destruct Htk as [Htk1 [Htk2 HR]]. apply tk_cons in Htk2. destruct Htk2 as [Hlx _].
+      pose proof (olx_notfixed op Hlx Hnf) as Hlex.
+      cbn [wfp] in Hw. unfold infix_entry in Hw. rewrite Hlex, Hie in Hw. bsplit.
+      match goal with H : is_eof op = false |- _ => rename H into Heof end.
+      rewrite <- (tpos_noeof op Heof) in *.
+      yhd x h r Hidx.
+      rewrite <- app_assoc. cbn [app].
+      apply (HCx rbp (h :: r) (op :: rest)); auto.
+      + split; [rewrite (lbpk_infix _ _ _ _ Hie); assumption | intros _; apply notfixed_not_lparen; exact Hnf].
+      + eapply Lp_step_cons; [apply Z.ltb_lt; eassumption | exact Hie | | | exact Hloop].
+        * eapply L_postfix. eapply rng_gen; [exact Hidx | apply idx_tpos; exact Heof | apply HR; solve_in].
+        * reflexivity.
+  Qed.
+
+  Lemma PC_binary : forall p n np fx l r, PC l -> PC r -> PC (EBinary p n np fx l r).
+  Proof.
+    intros p n np fx l r [HCl _] [HCr _]. start_C.
+    match goal with H : infix_entry g (t_kind op) = Some _ |- _ => rename H into Hie end.
+    unfold infix_entry in Hie.
+    match goal with H : _ \/ _ |- _ => rename H into Hdisj end.
+    assert (Hnf : notfixed (t_kind op) /\ 0 < bp /\ (ld = LBinR -> 8 <= bp)).
+    { pose proof (go_infix g Hg _ _ _ Hie) as Hs. unfold led_spec in Hs.
+      destruct Hdisj as [[-> _]|[[-> _]|[-> _]]]; cbn [led_kind] in Hs; exact Hs. }
+    destruct Hnf as [Hnf [Hbp Hbp8]].
+    apply tk_app in Htk. destruct Htk as [Htk1 [Htk2 HR]]. apply tk_cons in Htk2. destruct Htk2 as [Hlx [Htk2 _]].
+    pose proof (olx_notfixed op Hlx Hnf) as Hlex.
+    match goal with H : is_eof op = false |- _ => rename H into Heof end.
+    rewrite <- (tpos_noeof op Heof) in *.
+    destruct Hcl as [Hrom Hewm]. cbn [rom ends_with_member] in Hrom, Hewm. unfold infix_entry in Hrom.
+    rewrite Hlex, Hie in Hrom. apply le_inf_zmin_inv in Hrom. destruct Hrom as [Hstop Hrom].
+    cbn [wfp] in Hw. unfold infix_entry in Hw. rewrite Hlex, Hie in Hw.
+    yhd l hl rl Hidxl.
+    yhd r hr rr Hidxr.
+    assert (Hrng_lr : rng (expr_pos l) (expr_pos r) = POk (span (expr_pos l) (expr_pos r))).
+    { eapply rng_gen; [exact Hidxl | exact Hidxr | apply HR; solve_in]. }
+    rewrite <- app_assoc. cbn [app].
+    assert (Hfin : forall rr0 fx0, led_bin ld bp = Some (fx0, rr0) -> fx0 = fx -> rbp_of bp ld = rr0 ->
+              rbp < bp -> wfp g rbp l = true -> le_inf bp (rom g l) = true -> wfp g rr0 r = true ->
+              infix_n_ok (EBinary (span (expr_pos l) (expr_pos r)) (t_lexeme op) (tpos op) fx l r) = true ->
+              run g rng (JExpr rbp ((hl :: rl) ++ op :: (hr :: rr) ++ rest) e' rest')).
+    { intros rr0 fx0 Hlb -> Hrr Hlt Hwl Hrl Hwr Hok.
+      apply (HCl rbp (hl :: rl) (op :: (hr :: rr) ++ rest)); auto.
+      - split; [rewrite (lbpk_infix _ _ _ _ Hie); assumption | intros _; apply notfixed_not_lparen; exact Hnf].
+      - eapply Lp_step_cons; [exact Hlt | exact Hie | | exact Hok | exact Hloop].
+        eapply L_bin; [exact Hlb | | exact Hrng_lr].
+        apply (C_stop r rr0 (hr :: rr) rest); auto; [split; assumption | rewrite <- Hrr; assumption]. }
+    destruct Hdisj as [[-> ->]|[[-> ->]|[-> ->]]]; bsplit.
+    - eapply Hfin; try reflexivity; auto. apply Z.ltb_lt; assumption.
+    - eapply Hfin; try reflexivity; auto. apply Z.ltb_lt; assumption.
+    - eapply Hfin; try reflexivity; auto; [apply Z.ltb_lt; assumption|].
+      cbn [infix_n_ok]. unfold same_binary in *. rewrite Hlex.
+      repeat match goal with H : negb _ = true |- _ => rewrite H end. reflexivity.
+  Qed.
+
+  Lemma PC_ternary : forall p n np l m r, PC l -> PC m -> PC r -> PC (ETernary p n np l m r).
+  Proof.
+    intros p n np l m r [HCl _] [HCm _] [HCr _]. start_C.
+    repeat match goal with H : is_kind _ _ |- _ => destruct H as [? ?] end.
+    assert (Hie : get (t_kind q) (g_infix g) = Some (BP_COND, LQuestion)).
+    { eapply get_fixed_led; [reflexivity | assumption]. }
+    apply tk_app in Htk. destruct Htk as [Htk1 [Htk2 HR]]. apply tk_cons in Htk2. destruct Htk2 as [_ [Htk2 _]].
+    apply tk_app in Htk2. destruct Htk2 as [Htkm [Htk3 _]]. apply tk_cons in Htk3. destruct Htk3 as [_ [Htkr _]].
+    match goal with H : is_eof q = false |- _ => rename H into Heof end.
+    rewrite <- (tpos_noeof q Heof) in *.
+    destruct Hcl as [Hrom Hewm]. cbn [rom ends_with_member] in Hrom, Hewm.
+    apply le_inf_zmin_inv in Hrom. destruct Hrom as [Hstop Hrom].
+    cbn [wfp] in Hw. bsplit.
+    yhd l hl rl Hidxl. yhd r hr rr Hidxr.
+    repeat (rewrite <- app_assoc; cbn [app]).
+    apply (HCl rbp (hl :: rl) (q :: tm ++ c :: (hr :: rr) ++ rest)); auto.
+    - split; [rewrite (lbpk_infix _ _ _ _ Hie); assumption|]. intros _. unfold kind_is. cbn [peek].
+      match goal with H : t_kind q = _ |- _ => rewrite H end. reflexivity.
+    - eapply Lp_step_cons; [apply Z.ltb_lt; eassumption | exact Hie | | | exact Hloop]; [|reflexivity].
+      eapply L_question.
+      + apply C_stop_closer; eauto. match goal with H : t_kind c = _ |- _ => rewrite H end. cbn; tauto.
+      + apply must_eat_cons_ok. assumption.
+      + apply (C_stop r (BP_COND - 8) (hr :: rr) rest); auto. split; assumption.
+      + eapply rng_gen; [exact Hidxl | exact Hidxr | apply HR; solve_in].
+  Qed.
+
+  Lemma PC_sub : forall p c v i, PC v -> PC i -> PC (ESub p c v i).
+  Proof.
+    intros p c v i [HCv _] [HCi _]. start_C.
+    repeat match goal with H : is_kind _ _ |- _ => destruct H as [? ?] end.
+    assert (Hie : get (t_kind lb) (g_infix g) = Some (BP_MEMBER, LSubscript)).
+    { eapply get_fixed_led; [reflexivity | assumption]. }
+    apply tk_app in Htk. destruct Htk as [Htk1 [Htk2 HR]]. apply tk_cons in Htk2. destruct Htk2 as [_ [Htk2 _]].
+    apply tk_app in Htk2. destruct Htk2 as [Htki _].
+    cbn [wfp] in Hw. bsplit.
+    yhd v hv rv Hidxv.
+    repeat (rewrite <- app_assoc; cbn [app]).
+    apply (HCv rbp (hv :: rv) (lb :: ti ++ rb :: rest)); auto.
+    - split; [rewrite (lbpk_infix _ _ _ _ Hie); assumption|]. intros _. unfold kind_is. cbn [peek].
+      match goal with H : t_kind lb = _ |- _ => rewrite H end. reflexivity.
+    - eapply Lp_step_cons; [apply Z.ltb_lt; eassumption | exact Hie | | | exact Hloop]; [|reflexivity].
+      unfold tcol. eapply L_sub.
+      + apply C_stop_closer; eauto. match goal with H : t_kind rb = _ |- _ => rewrite H end. cbn; tauto.
+      + apply must_eat_cons_ok. assumption.
+      + rewrite (tpos_noeof rb) by assumption. eapply rng_gen; [exact Hidxv | reflexivity | apply HR; solve_in].
+  Qed.
+
+  Lemma PC_member : forall p c o n np, PC o -> PC (EMember p c o n np).
+  Proof.
+    intros p c o n np [HCo _]. split; [|exact HCo].
+    intros rbp used rest e' rest' Hy Hw Htk Hcl Hloop; inversion Hy; subst.
+    repeat match goal with H : is_kind _ _ |- _ => destruct H as [? ?] end.
+    assert (Hie : get (t_kind dot) (g_infix g) = Some (BP_MEMBER, LDot)).
+    { eapply get_fixed_led; [reflexivity | assumption]. }
+    apply tk_app in Htk. destruct Htk as [Htk1 [Htk2 HR]].
+    match goal with H : is_eof name = false |- _ => rename H into Heofn end.
+    rewrite <- (tpos_noeof name Heofn) in *.
+    cbn [wfp] in Hw. bsplit.
+    yhd o ho ro Hidxo.
+    repeat (rewrite <- app_assoc; cbn [app]).
+    apply (HCo rbp (ho :: ro) (dot :: name :: rest)); auto.
+    - split; [rewrite (lbpk_infix _ _ _ _ Hie); assumption|]. intros _. unfold kind_is. cbn [peek].
+      match goal with H : t_kind dot = _ |- _ => rewrite H end. reflexivity.
+    - eapply Lp_step_cons; [apply Z.ltb_lt; eassumption | exact Hie | | | exact Hloop]; [|reflexivity].
+      unfold tcol. eapply (L_dot g rng BP_MEMBER o dot (name :: rest)).
+      + cbn [peek]. eapply rng_gen; [exact Hidxo | apply idx_tpos; assumption | apply HR; solve_in].
+      + cbn [tl]. destruct Hcl as [_ Hewm]. unfold try_eat. rewrite (Hewm eq_refl). reflexivity.
+  Qed.
+
+  Lemma PC_call : forall p c f args, PC f -> Forall PC args -> PC (ECall p c f args).
+  Proof.
+    intros p c f args [HCf HCo] HPC. apply Forall_PC_C in HPC. start_C.
+    repeat match goal with H : is_kind _ _ |- _ => destruct H as [? ?] end.
+    assert (Hie : get (t_kind lp) (g_infix g) = Some (BP_CALL, LCall)).
+    { eapply get_fixed_led; [reflexivity | assumption]. }
+    apply tk_app in Htk. destruct Htk as [Htk1 [Htk2 HR]]. apply tk_cons in Htk2. destruct Htk2 as [_ [Htk2 _]].
+    apply tk_app in Htk2. destruct Htk2 as [Htka _].
+    apply wfp_call_cases in Hw. destruct Hw as [Hwa [[pm [cm [o [nm [npos [-> Hwf]]]]]]|[Hlt [Hwf [Hrf Hnm]]]]].
+    - (* immediate call after .name *)
+      match goal with H : yields g (EMember _ _ _ _ _) _ |- _ => inversion H; subst end.
+      repeat match goal with H : is_kind _ _ |- _ => destruct H as [? ?] end.
+      assert (Hied : get (t_kind dot) (g_infix g) = Some (BP_MEMBER, LDot)).
+      { eapply get_fixed_led; [reflexivity | assumption]. }
+      match goal with H : is_eof name = false |- _ => rename H into Heofn end.
+      rewrite <- (tpos_noeof name Heofn) in *.
+      cbn [wfp] in Hwf. bsplit.
+      yhd o ho ro Hidxo.
+      repeat (rewrite <- app_assoc; cbn [app]).
+      apply (HCo rbp (ho :: ro) (dot :: name :: lp :: targs ++ rp :: rest)); auto.
+      + apply tk_app in Htk1. apply Htk1.
+      + split; [rewrite (lbpk_infix _ _ _ _ Hied); assumption|]. intros _. unfold kind_is. cbn [peek].
+        match goal with H : t_kind dot = _ |- _ => rewrite H end. reflexivity.
+      + eapply Lp_step_cons; [apply Z.ltb_lt; eassumption | exact Hied | | | exact Hloop]; [|reflexivity].
+        unfold tcol in *.
+        eapply (L_dotcall g rng BP_MEMBER o dot (name :: lp :: targs ++ rp :: rest)).
+        * cbn [peek]. eapply rng_gen; [exact Hidxo | apply idx_tpos; assumption |].
+          apply tk_app in Htk1. destruct Htk1 as [_ [_ HR1]]. apply HR1; solve_in.
+        * cbn [tl]. apply try_eat_cons_ok. assumption.
+        * cbn [peek]. eapply call_complete; eauto; [split; assumption|].
+          rewrite (tpos_noeof rp) by assumption.
+          eapply rng_gen; [cbn [expr_pos span p_idx]; exact Hidxo | reflexivity | apply HR; solve_in].
+    - yhd f hf rf Hidxf.
+      repeat (rewrite <- app_assoc; cbn [app]).
+      apply (HCf rbp (hf :: rf) (lp :: targs ++ rp :: rest)); auto.
+      + split; [rewrite (lbpk_infix _ _ _ _ Hie); assumption|]. intros Hc. congruence.
+      + eapply Lp_step_cons; [exact Hlt | exact Hie | | | exact Hloop]; [|reflexivity].
+        unfold tcol. apply L_call. eapply call_complete; eauto; [split; assumption|].
+        rewrite (tpos_noeof rp) by assumption. eapply rng_gen; [exact Hidxf | reflexivity | apply HR; solve_in].
+  Qed.
+
+  Theorem complete_all : forall e, PC e.
+  Proof.
+    apply expr_ind'.
+    - apply PC_str. - apply PC_num. - apply PC_time. - apply PC_bool. - apply PC_list. - apply PC_map.
+    - apply PC_obj. - apply PC_ident. - apply PC_call. - apply PC_sub. - apply PC_member. - apply PC_unary.
+    - apply PC_binary. - apply PC_ternary. - apply PC_group.
+  Qed.
+End Complete.
+
+(* ---------- a derivation of the relation is what the functions compute (unless they run out of fuel) ---------- *)
+Lemma pbind_step : forall {X Y} (r : pres X) (k : X -> pres Y) v y,
+  (r <> PFuel -> r = POk v) -> pbind r k <> PFuel -> (k v <> PFuel -> k v = POk y) -> pbind r k = POk y.
+Proof.
+  intros X Y r k v y H1 H2 H3.
+  assert (Hr : r <> PFuel). { intro E. rewrite E in H2. apply H2. reflexivity. }
+  rewrite (H1 Hr) in *. cbn [pbind] in *. apply H3. exact H2.
+Qed.
+
+Ltac pstep tac :=
+  match goal with
+  | Hnf : pbind ?r ?k <> PFuel |- pbind ?r ?k = POk _ =>
+      eapply (pbind_step r k); [ tac | exact Hnf | clear Hnf; intro Hnf; cbn beta iota in Hnf |- * ]
+  end.
+Ltac pfact := pstep ltac:(intros _; eassumption).
+
+Section RunFn.
+  Variable g : grammar.
+
+  Definition P_fn (j : judg) : Prop :=
+    match j with
+    | JExpr rbp ts e rest => forall f, p_expr g f rbp ts <> PFuel -> p_expr g f rbp ts = POk (e, rest)
+    | JNud n bp t ts e rest =>
+        forall f, nud_fn (p_expr g f) n bp t ts <> PFuel -> nud_fn (p_expr g f) n bp t ts = POk (e, rest)
+    | JLoop rbp lft ts e rest =>
+        forall f n, infix_loop g (p_expr g f) n rbp lft ts <> PFuel -> infix_loop g (p_expr g f) n rbp lft ts = POk (e, rest)
+    | JLed l bp lft t ts e rest =>
+        forall f, led_fn (p_expr g f) l bp lft t ts <> PFuel -> led_fn (p_expr g f) l bp lft t ts = POk (e, rest)
+    | JCall callee lp ts e rest =>
+        forall f, parse_call (p_expr g f) callee lp ts <> PFuel -> parse_call (p_expr g f) callee lp ts = POk (e, rest)
+    | JElems close ts es rest =>
+        forall f n acc, elems_loop (p_expr g f) n close ts acc <> PFuel ->
+                        elems_loop (p_expr g f) n close ts acc = POk (rev acc ++ es, rest)
+    | JPairs ts kvs rest =>
+        forall f n acc, pairs_loop (p_expr g f) n ts acc <> PFuel ->
+                        pairs_loop (p_expr g f) n ts acc = POk (rev acc ++ kvs, rest)
+    | JFields ts fs rest =>
+        forall f n acc, fields_loop (p_expr g f) n ts acc <> PFuel ->
+                        fields_loop (p_expr g f) n ts acc = POk (rev acc ++ fs, rest)
+    | JArgs ts es rest =>
+        forall f n acc, args_loop (p_expr g f) n ts acc <> PFuel ->
+                        args_loop (p_expr g f) n ts acc = POk (rev acc ++ es, rest)
+    end.
+
+  Lemma rev_cons_app : forall {X} (x : X) acc l, rev (x :: acc) ++ l = rev acc ++ x :: l.
+  Proof. intros. cbn [rev]. rewrite <- app_assoc. reflexivity. Qed.
+
+  Lemma run_fn : forall j, runr g j -> P_fn j.
+  Proof.
+    intros j H. induction H; cbn [P_fn] in *.
+    - (* R_expr *) intros f Hnf. destruct f as [|f]; [exfalso; apply Hnf; reflexivity|].
+      cbn [p_expr] in *. unfold expr_step in *. rewrite eat_peek_tl in *. rewrite H in *.
+      pstep ltac:(apply IHrun1). apply IHrun2. exact Hnf.
+    - intros f Hnf. reflexivity.
+    - intros f Hnf. reflexivity.
+    - intros f Hnf. reflexivity.
+    - intros f Hnf. cbn [nud_fn]. destruct (num_parse (t_lexeme t)); [reflexivity | congruence].
+    - intros f Hnf. cbn [nud_fn]. destruct (str_value (t_lexeme t)); [reflexivity | congruence].
+    - intros f Hnf. reflexivity.
+    - (* prefix *) intros f Hnf. cbn [nud_fn] in *. pstep ltac:(apply IHrun). pfact. reflexivity.
+    - (* group *) intros f Hnf. cbn [nud_fn] in *. pstep ltac:(apply IHrun). pfact. pfact. reflexivity.
+    - (* obj *) intros f Hnf. cbn [nud_fn] in *. pstep ltac:(apply IHrun). pfact. pfact. reflexivity.
+    - (* map empty *) intros f Hnf. cbn [nud_fn] in *. rewrite H in *. pfact. pfact. reflexivity.
+    - (* list empty *) intros f Hnf. cbn [nud_fn] in *. rewrite H, H0 in *. pfact. pfact. reflexivity.
+    - (* list1 *) intros f Hnf. cbn [nud_fn] in *. rewrite H, H0 in *. pstep ltac:(apply IHrun).
+      rewrite H2, H3 in *. cbn [pbind] in *. pfact. pfact. reflexivity.
+    - (* listn *) intros f Hnf. cbn [nud_fn] in *. rewrite H, H0 in *. pstep ltac:(apply IHrun1).
+      rewrite H2, H3 in *. pstep ltac:(apply (IHrun2 f (S (len ts2)) [e])). pfact. pfact. reflexivity.
+    - (* map1 *) intros f Hnf. cbn [nud_fn] in *. rewrite H, H0 in *. pstep ltac:(apply IHrun1).
+      rewrite H2 in *. pstep ltac:(apply IHrun2). rewrite H4 in *. cbn [pbind] in *. pfact. pfact. reflexivity.
+    - (* mapn *) intros f Hnf. cbn [nud_fn] in *. rewrite H, H0 in *. pstep ltac:(apply IHrun1).
+      rewrite H2 in *. pstep ltac:(apply IHrun2). rewrite H4 in *.
+      pstep ltac:(apply (IHrun3 f (S (len ts4)) [(k, v)])). pfact. pfact. reflexivity.
+    - (* E_close *) intros f n acc Hnf. destruct n as [|n]; [exfalso; apply Hnf; reflexivity|].
+      cbn [elems_loop] in *. rewrite H in *. rewrite app_nil_r. reflexivity.
+    - intros f n acc Hnf. destruct n as [|n]; [exfalso; apply Hnf; reflexivity|].
+      cbn [elems_loop] in *. rewrite H in *. pstep ltac:(apply IHrun). rewrite H1 in *. reflexivity.
+    - intros f n acc Hnf. destruct n as [|n]; [exfalso; apply Hnf; reflexivity|].
+      cbn [elems_loop] in *. rewrite H in *. pstep ltac:(apply IHrun1). rewrite H1 in *.
+      rewrite <- rev_cons_app. apply IHrun2. exact Hnf.
+    - (* P_close *) intros f n acc Hnf. destruct n as [|n]; [exfalso; apply Hnf; reflexivity|].
+      cbn [pairs_loop] in *. rewrite H in *. rewrite app_nil_r. reflexivity.
+    - intros f n acc Hnf. destruct n as [|n]; [exfalso; apply Hnf; reflexivity|].
+      cbn [pairs_loop] in *. rewrite H in *. pstep ltac:(apply IHrun1). pfact. pstep ltac:(apply IHrun2).
+      rewrite H3 in *. reflexivity.
+    - intros f n acc Hnf. destruct n as [|n]; [exfalso; apply Hnf; reflexivity|].
+      cbn [pairs_loop] in *. rewrite H in *. pstep ltac:(apply IHrun1). pfact. pstep ltac:(apply IHrun2).
+      rewrite H3 in *. rewrite <- rev_cons_app. apply IHrun3. exact Hnf.
+    - (* F_close *) intros f n acc Hnf. destruct n as [|n]; [exfalso; apply Hnf; reflexivity|].
+      cbn [fields_loop] in *. rewrite H in *. rewrite app_nil_r. reflexivity.
+    - intros f n acc Hnf. destruct n as [|n]; [exfalso; apply Hnf; reflexivity|].
+      cbn [fields_loop] in *. rewrite H in *. pfact. pfact. pstep ltac:(apply IHrun).
+      rewrite H3 in *. reflexivity.
+    - intros f n acc Hnf. destruct n as [|n]; [exfalso; apply Hnf; reflexivity|].
+      cbn [fields_loop] in *. rewrite H in *. pfact. pfact. pstep ltac:(apply IHrun1).
+      rewrite H3 in *. rewrite <- rev_cons_app. apply IHrun2. exact Hnf.
+    - (* A_last *) intros f n acc Hnf. destruct n as [|n]; [exfalso; apply Hnf; reflexivity|].
+      cbn [args_loop] in *. pstep ltac:(apply IHrun). rewrite H0 in *. reflexivity.
+    - intros f n acc Hnf. destruct n as [|n]; [exfalso; apply Hnf; reflexivity|].
+      cbn [args_loop] in *. pstep ltac:(apply IHrun1). rewrite H0 in *.
+      rewrite <- rev_cons_app. apply IHrun2. exact Hnf.
+    - (* C_empty *) intros f Hnf. unfold parse_call in *. rewrite H in *. cbn [pbind] in *. pfact. reflexivity.
+    - (* C_args *) intros f Hnf. unfold parse_call in *. rewrite H in *.
+      pstep ltac:(let Hn := fresh "Hn" in intro Hn; pstep ltac:(apply (IHrun f (S (len ts)) [])); pfact; reflexivity).
+      pfact. reflexivity.
+    - (* L_bin *) intros f Hnf. destruct l; cbn in H; inv H; cbn [led_fn] in *;
+        (pstep ltac:(apply IHrun)); pfact; reflexivity.
+    - (* postfix *) intros f Hnf. cbn [led_fn] in *. pfact. reflexivity.
+    - (* question *) intros f Hnf. cbn [led_fn] in *. pstep ltac:(apply IHrun1). pfact. pstep ltac:(apply IHrun2).
+      pfact. reflexivity.
+    - (* call *) intros f Hnf. cbn [led_fn] in *. apply IHrun. exact Hnf.
+    - (* sub *) intros f Hnf. cbn [led_fn] in *. pstep ltac:(apply IHrun). pfact. pfact. reflexivity.
+    - (* dot *) intros f Hnf. cbn [led_fn] in *. rewrite eat_peek_tl in *. pfact. rewrite H0 in *. reflexivity.
+    - (* dotcall *) intros f Hnf. cbn [led_fn] in *. rewrite eat_peek_tl in *. pfact. rewrite H0 in *.
+      apply IHrun. exact Hnf.
+    - (* stop *) intros f n Hnf. destruct n as [|n]; [exfalso; apply Hnf; reflexivity|].
+      cbn [infix_loop] in *. rewrite H in *. reflexivity.
+    - (* step *) intros f n Hnf. destruct n as [|n]; [exfalso; apply Hnf; reflexivity|].
+      cbn [infix_loop] in *. rewrite H in *. rewrite eat_peek_tl in *. rewrite H0 in *.
+      pstep ltac:(apply IHrun1). rewrite H2 in *. apply IHrun2. exact Hnf.
+  Qed.
+End RunFn.
+
+(* ---------- parse_complete needs the tokens in source order (pos.Range asserts to.Idx >= from.Idx) ---------- *)
+Definition idx_sorted (ts : list token) : Prop := StronglySorted (fun a b => (t_idx a <= t_idx b)%N) ts.
+
+Lemma idx_sorted_tsorted : forall ts, idx_sorted ts -> tsorted Z.le ts.
+Proof.
+  intros ts H. induction H as [|a l Hs IH Hf]; cbn [tsorted]; [exact I|]. split; [|exact IH].
+  eapply Forall_impl; [|exact Hf]. intros b Hb. unfold tR. apply N2Z.inj_le. exact Hb.
+Qed.
+
+Lemma range_le : forall a b, p_idx a <= p_idx b -> range a b = POk (span a b).
+Proof. intros a b H. unfold range. apply Z.leb_le in H. rewrite H. reflexivity. Qed.
+
+Lemma parse_complete_partial : forall ops ts e,
+  table_ok ops = true -> no_eof ts = true ->
+  Forall (fun t => existsb (list_eqb (t_kind t)) fixed_kinds = true \/ t_lexeme t = t_kind t) ts ->
+  idx_sorted ts ->
+  yields (new_grammar ops) e ts -> wfp (new_grammar ops) 0 e = true ->
+  parse_tokens ops ts = POk e.
+Proof.
+  intros ops ts e Hok _ Hlx Hso Hy Hw.
+  pose proof (table_ok_gram_ok ops Hok) as Hg.
+  destruct (complete_all (new_grammar ops) Hg range Z.le range_le e) as [HC _].
+  assert (Hrun : runr (new_grammar ops) (JExpr 0 ts e [])).
+  { rewrite <- (app_nil_r ts) at 1. apply HC; auto.
+    - split; [exact Hlx | apply idx_sorted_tsorted; exact Hso].
+    - apply closed_nil; exact Hg.
+    - apply Lp_stop_le. rewrite (lbpk_nil _ Hg). lia. }
+  apply run_fn in Hrun. cbn [P_fn] in Hrun.
+  unfold parse_tokens. rewrite Hrun; [reflexivity|].
+  apply p_expr_nf; [apply (go_eof _ Hg) | lia].
+Qed.
+
+Lemma wfp_unique_partial : forall ops ts e1 e2,
+  table_ok ops = true -> no_eof ts = true ->
+  Forall (fun t => existsb (list_eqb (t_kind t)) fixed_kinds = true \/ t_lexeme t = t_kind t) ts ->
+  idx_sorted ts ->
+  yields (new_grammar ops) e1 ts -> wfp (new_grammar ops) 0 e1 = true ->
+  yields (new_grammar ops) e2 ts -> wfp (new_grammar ops) 0 e2 = true -> e1 = e2.
+Proof.
+  intros ops ts e1 e2 Hok Hne Hlx Hso Hy1 Hw1 Hy2 Hw2.
+  pose proof (parse_complete_partial ops ts e1 Hok Hne Hlx Hso Hy1 Hw1) as H1.
+  pose proof (parse_complete_partial ops ts e2 Hok Hne Hlx Hso Hy2 Hw2) as H2.
+  congruence.
+Qed.
+
+(* ---------- the relation is deterministic (for any range function) ---------- *)
+Section Det.
+  Variable g : grammar.
+  Variable rng : pos -> pos -> pres pos.
+
+  Definition P_det (j : judg) : Prop :=
+    match j with
+    | JExpr rbp ts e rest => forall e' rest', run g rng (JExpr rbp ts e' rest') -> e = e' /\ rest = rest'
+    | JNud n bp t ts e rest => forall e' rest', run g rng (JNud n bp t ts e' rest') -> e = e' /\ rest = rest'
+    | JLoop rbp lft ts e rest => forall e' rest', run g rng (JLoop rbp lft ts e' rest') -> e = e' /\ rest = rest'
+    | JLed l bp lft t ts e rest => forall e' rest', run g rng (JLed l bp lft t ts e' rest') -> e = e' /\ rest = rest'
+    | JCall callee lp ts e rest => forall e' rest', run g rng (JCall callee lp ts e' rest') -> e = e' /\ rest = rest'
+    | JElems close ts es rest => forall es' rest', run g rng (JElems close ts es' rest') -> es = es' /\ rest = rest'
+    | JPairs ts kvs rest => forall kvs' rest', run g rng (JPairs ts kvs' rest') -> kvs = kvs' /\ rest = rest'
+    | JFields ts fs rest => forall fs' rest', run g rng (JFields ts fs' rest') -> fs = fs' /\ rest = rest'
+    | JArgs ts es rest => forall es' rest', run g rng (JArgs ts es' rest') -> es = es' /\ rest = rest'
+    end.
+
+  Ltac det :=
+    repeat first
+      [ match goal with
+        | H1 : ?x = Some _, H2 : ?x = Some _ |- _ => rewrite H1 in H2; inv H2
+        | H1 : ?x = POk _, H2 : ?x = POk _ |- _ => rewrite H1 in H2; inv H2
+        | H1 : ?x = Some _, H2 : ?x = None |- _ => exfalso; congruence
+        | H1 : ?x = true, H2 : ?x = false |- _ => exfalso; congruence
+        | H : led_bin _ _ = Some _ |- _ => cbn in H; first [discriminate | inv H]
+        end
+      | match goal with
+        | IH : (forall e' rest', run g rng _ -> _ = e' /\ _ = rest'), H : run g rng _ |- _ =>
+            apply IH in H; destruct H; subst
+        end ].
+
+  Lemma run_det : forall j, run g rng j -> P_det j.
+  Proof.
+    intros j H. induction H; cbn [P_det] in *; intros e'' rest'' H';
+      try (destruct l; cbn in H; inv H);
+      inversion H'; subst; det; try (split; reflexivity).
+  Qed.
+End Det.
+
+(* ---------- uniqueness, without any assumption on token positions ---------- *)
+Definition rng_free (a b : pos) : pres pos := POk (span a b).
+
+Lemma tsorted_trivial : forall ts, tsorted (fun _ _ => True) ts.
+Proof.
+  induction ts as [|t r IH]; cbn [tsorted]; [exact I|]. split; [|exact IH].
+  apply Forall_forall. intros. exact I.
+Qed.
+
+Lemma complete_free : forall ops ts e,
+  table_ok ops = true ->
+  Forall (fun t => existsb (list_eqb (t_kind t)) fixed_kinds = true \/ t_lexeme t = t_kind t) ts ->
+  yields (new_grammar ops) e ts -> wfp (new_grammar ops) 0 e = true ->
+  run (new_grammar ops) rng_free (JExpr 0 ts e []).
+Proof.
+  intros ops ts e Hok Hlx Hy Hw.
+  pose proof (table_ok_gram_ok ops Hok) as Hg.
+  destruct (complete_all (new_grammar ops) Hg rng_free (fun _ _ => True) (fun a b _ => eq_refl) e) as [HC _].
+  rewrite <- (app_nil_r ts) at 1. apply HC; auto.
+  - split; [exact Hlx | apply tsorted_trivial].
+  - apply closed_nil; exact Hg.
+  - apply Lp_stop_le. rewrite (lbpk_nil _ Hg). lia.
+Qed.
+
+Lemma wfp_unique : forall ops ts e1 e2,
+  table_ok ops = true -> no_eof ts = true ->
+  Forall (fun t => existsb (list_eqb (t_kind t)) fixed_kinds = true \/ t_lexeme t = t_kind t) ts ->
+  yields (new_grammar ops) e1 ts -> wfp (new_grammar ops) 0 e1 = true ->
+  yields (new_grammar ops) e2 ts -> wfp (new_grammar ops) 0 e2 = true -> e1 = e2.
+Proof.
+  intros ops ts e1 e2 Hok _ Hlx Hy1 Hw1 Hy2 Hw2.
+  pose proof (complete_free ops ts e1 Hok Hlx Hy1 Hw1) as H1.
+  pose proof (complete_free ops ts e2 Hok Hlx Hy2 Hw2) as H2.
+  apply (run_det _ _ _ H1) in H2. apply H2.
+Qed.
+
+(* ---------- summary ---------- *)
+Print Assumptions group_closed.
+Print Assumptions yields_span.
+Print Assumptions parse_nonassoc.
+Print Assumptions no_fuel_partial.
+Print Assumptions no_fuel_table_ok.
+Print Assumptions parse_yields.
+Print Assumptions parse_wfp.
+Print Assumptions parse_complete_partial.
+Print Assumptions wfp_unique_partial.
+Print Assumptions wfp_unique.
